@@ -6,6 +6,9 @@ Binding: G - TLC emits rows (types, canonical values, text row, binary row); the
 BuildBinaryResultset conversion is run on the text row and its output decoded by an independent decoder that is
 itself checked against TLC's bytes on every case.
 """
+import json
+import random
+
 import _wire
 import vlib
 
@@ -16,7 +19,7 @@ MANIFEST = {
         "text": "TLC checks for every row it builds (single column: every column type the code switches on x UNSIGNED flag x the "
                 "value table incl. integer extremes of every width, IEEE-754 constants, decimals, strings around the 250/251 "
                 "length-prefix limit, zero / partial-zero dates, microseconds, negative and > 24 h times, NULL; rows of up to 3 "
-                "columns over one representative per family; NULL patterns in every position for 1..10 columns (thorough: 3 "
+                "columns over one representative per family; NULL patterns in every position for 1..10 columns, result sets of 2..3 rows (thorough: 3 "
                 "column kinds up to 8, 2 kinds up to 12 columns)) that the specified binary row decodes to the values of the text "
                 "row, that the null bitmap has offset 2 and no stray bits, and that the text row is well-formed. Every row is "
                 "replayed through the real ParseText -> BuildBinaryResultset and decoded independently.",
@@ -37,8 +40,10 @@ CONSTANTS
   MaxMixed = %(mixed)d
   MaxBitmap = %(bitmap)d
   MaxBitmap3 = %(bitmap3)d
+  MaxSetCols = %(setcols)d
+  MaxSetRows = %(setrows)d
   EmitCases = TRUE
-INVARIANTS RowRoundTrip RowShape TextRowOK Emit
+INVARIANTS RowRoundTrip RowShape TextRowOK SetRoundTrip Emit EmitSet
 CHECK_DEADLOCK FALSE
 """
 
@@ -71,20 +76,47 @@ def run(ctx):
         rec = ctx.read_ndjson(ctx.replay)[0]
         _wire.replay(ctx, "mysql", HARNESS, RUN, [rec["case"]])
         return
-    plan = {"modes": '"single", "mixed", "bitmap"', "mixed": 2, "bitmap": 10, "bitmap3": 0}
+    plan = {"modes": '"single", "mixed", "bitmap", "sets"', "mixed": 2, "bitmap": 10, "bitmap3": 0, "setcols": 2, "setrows": 3}
     if ctx.thorough:
-        plan = {"modes": '"single", "mixed", "bitmap", "bitmap3"', "mixed": 3, "bitmap": 12, "bitmap3": 8}
+        plan = {"modes": '"single", "mixed", "bitmap", "bitmap3", "sets"', "mixed": 3, "bitmap": 12, "bitmap3": 8,
+                "setcols": 3, "setrows": 3}
     r = ctx.tlc("Wire_rows", "rows.cfg", workers=1, coverage=True, timeout=1500, extra_files={"rows.cfg": CFG % plan},
                 label="rows: single column (all types x values), mixed <= %(mixed)d columns, NULL patterns <= %(bitmap)d columns "
-                      "(3 kinds <= %(bitmap3)d)" % plan)
+                      "(3 kinds <= %(bitmap3)d), result sets of <= %(setrows)d rows x <= %(setcols)d columns" % plan)
     cases = r.cases
     if not cases:
         raise vlib.Inconclusive("TLC emitted no rows")
-    ctx.log("rows", len(cases), r.stats(), "%.1fs" % r.wall)
+    singles = [c for c in cases if "vals" in c]
+    tlc_sets = [c for c in cases if "set" in c]
+    if not singles or not tlc_sets:
+        raise vlib.Inconclusive("TLC emitted %d rows and %d result sets" % (len(singles), len(tlc_sets)))
+    # result sets out of the emitted rows: rows over the same columns are also sent together, in a seeded order and in
+    # the reverse order (the specification encodes a result set row by row: BinaryResultset), so that every column is NULL
+    # before non-NULL and non-NULL before NULL somewhere
+    rng = random.Random(ctx.seed)
+    groups = {}
+    for c in singles:
+        groups.setdefault(json.dumps(c["fields"]), []).append(c)
+    batched = []
+    for key, rows in groups.items():
+        if len(rows) < 2:
+            continue
+        rows = list(rows)
+        rng.shuffle(rows)
+        for i in range(0, len(rows), 48):
+            chunk = rows[i:i + 48]
+            if len(chunk) < 2:
+                chunk = rows[-2:]
+            for order in (chunk, chunk[::-1]):
+                batched.append({"fields": chunk[0]["fields"],
+                                "set": [{"vals": x["vals"], "text": x["text"], "bin": x["bin"]} for x in order]})
+    cases = singles + tlc_sets + batched
+    ctx.log("rows", len(singles), "result sets from TLC", len(tlc_sets), "result sets batched from the rows", len(batched),
+            r.stats(), "%.1fs" % r.wall)
     if r.zero_actions:
         ctx.notes.append("vacuous actions: %s" % r.zero_actions)
     known = vlib.known_replay_cases(ctx.pid)
-    good = next(c for c in cases if len(c["fields"]) == 2 and c["fields"][0]["t"] == 1 and c["vals"][0]["k"] == "int"
+    good = next(c for c in singles if len(c["fields"]) == 2 and c["fields"][0]["t"] == 1 and c["vals"][0]["k"] == "int"
                 and c["vals"][1]["k"] == "null")
     res, summ = _wire.replay(ctx, "mysql", HARNESS, RUN, cases + known,
                              selftests=[("corrupted_value_detected", good, corrupt),
@@ -96,9 +128,12 @@ def run(ctx):
     ctx.cov["error_kinds"] = summ.get("error_kinds", {})
     types = {(f["t"], f["u"]) for c in cases for f in c["fields"]}
     ctx.cov["column_type_flag_pairs"] = len(types)
-    ctx.cov["distinct_nontrivial"] = sum(1 for c in cases if any(v["k"] != "null" for v in c["vals"])
-                                         and (len(c["vals"]) > 1 or c["vals"][0]["k"] != "str" or len(c["vals"][0]["b"]) > 0))
-    ctx.cov["rule"] = ("case = row (column types, flags, values) from TLC; non-trivial = at least one non-NULL column and not just "
-                       "a single empty string")
-    ctx.sample(next(c for c in cases if len(c["fields"]) == 1 and c["fields"][0]["t"] == 12 and c["vals"][0]["k"] == "dt" and c["vals"][0]["n"][6]))
-    ctx.sample(next(c for c in cases if len(c["fields"]) == 2 and c["vals"][0]["k"] == "null" and c["vals"][1]["k"] != "null"))
+    ctx.cov["result_sets_with_several_rows"] = summ["result_sets"]
+    ctx.cov["distinct_nontrivial"] = sum(1 for c in singles if any(v["k"] != "null" for v in c["vals"])
+                                         and (len(c["vals"]) > 1 or c["vals"][0]["k"] != "str" or len(c["vals"][0]["b"]) > 0)) \
+        + len(tlc_sets) + len(batched)
+    ctx.cov["rule"] = ("case = row or result set (column types, flags, values) from TLC; non-trivial = a row with at least one "
+                       "non-NULL column that is not just a single empty string, or a result set of several rows")
+    ctx.sample(next(c for c in singles if len(c["fields"]) == 1 and c["fields"][0]["t"] == 12 and c["vals"][0]["k"] == "dt" and c["vals"][0]["n"][6]))
+    ctx.sample(next(c for c in singles if len(c["fields"]) == 2 and c["vals"][0]["k"] == "null" and c["vals"][1]["k"] != "null"))
+    ctx.sample(tlc_sets[len(tlc_sets) // 2])
